@@ -100,12 +100,13 @@ class PortMachine(Machine):
             empty=w.random() < 0.3,
             bad=w.random() < 0.15,
             platforms=w.choice([["ios"], ["ios"], ["ios", "nxos"], ["ios", "nxos", "asa"]]),
+            log_level=w.choice(["DEBUG", "WARNING"]),
         )
 
     def reset(self, cfg):
         self.cfg = cfg
         self.ids.install()
-        self.log.install()
+        self.log.install(cfg.get("log_level", "DEBUG"))
         self.slots = []
 
     def teardown(self):
